@@ -52,7 +52,9 @@ template<class G, class L> static void pos_t(const G& g, const Geo& q, const vec
          : ctor == "direct" ? g.DirectLine(q.lat1, q.lon1, q.azi1, 1.0e6, c)
          : ctor == "arcdirect" ? g.ArcDirectLine(q.lat1, q.lon1, q.azi1, 9.0, c)
          : g.InverseLine(q.lat1, q.lon1, q.lat2, q.lon2, c);
-  if (so == "setdist") line.SetDistance(2.0e6); else if (so == "setarc") line.SetArc(20.0);
+  { size_t k = 0; while (k < so.size()) { size_t e = so.find('+', k); string op = so.substr(k, e == string::npos ? string::npos : e - k); k = e == string::npos ? so.size() : e + 1;
+      if (op == "setdist") line.SetDistance(2.0e6); else if (op == "setarc") line.SetArc(20.0);
+      else if (op == "gsetdist") line.GenSetDistance(false, 2.5e6); else if (op == "gsetarc") line.GenSetDistance(true, 25.0); } }
   Out o = sentinels();
   double ret = line.GenPosition(am, am ? 15.0 : 1.5e6, tomask<G>(om), o.v[0], o.v[1], o.v[2], o.v[3], o.v[4], o.v[5], o.v[6], o.v[7]);
   bool pairok; int w = written(o, pairok);
@@ -86,6 +88,11 @@ static void rhumb_ops(const string& op, int om) {
     rh.GenInverse(40.0, -70.0, 50.0, 30.0, rmask(om), s12, azi, S12);
     int w = 0; if (!vt::is_sentinel(azi, 12)) w |= 4; if (!vt::is_sentinel(s12, 13)) w |= 8; if (!vt::is_sentinel(S12, 17)) w |= 128;
     Rec r; r.str("e", "ri").i("om", om).i("w", w); r.emit(); }
+  else if (op == "rdp" || op == "rlp") {   // the course runs over the pole: latitude defined, longitude and area NaN - but only requested outputs are written
+    for (int ex = 0; ex < 2; ++ex) { Rhumb rr(6378137.0, 1 / 298.257223563, ex == 1); double lat2 = vt::sentinel(10), lon2 = vt::sentinel(11), S12 = vt::sentinel(17);
+      if (op == "rdp") rr.GenDirect(60.0, 10.0, 20.0, 8.0e6, rmask(om), lat2, lon2, S12); else { RhumbLine l = rr.Line(0.0, 10.0, 0.0); l.GenPosition(10001966.0, rmask(om), lat2, lon2, S12); }
+      int w = 0; if (!vt::is_sentinel(lat2, 10)) w |= 1; if (!vt::is_sentinel(lon2, 11)) w |= 2; if (!vt::is_sentinel(S12, 17)) w |= 128;
+      Rec r; r.str("e", op == "rdp" ? "rd" : "rl").i("om", om).i("w", w).b("pole", true).b("exact", ex == 1); r.emit(); } }
   else { RhumbLine l = rh.Line(40.0, -70.0, 60.0); double lat2 = vt::sentinel(10), lon2 = vt::sentinel(11), S12 = vt::sentinel(17);
     l.GenPosition(2.0e6, rmask(om), lat2, lon2, S12);
     int w = 0; if (!vt::is_sentinel(lat2, 10)) w |= 1; if (!vt::is_sentinel(lon2, 11)) w |= 2; if (!vt::is_sentinel(S12, 17)) w |= 128;
@@ -105,7 +112,7 @@ static void replay() {
       int kind = atoi(t[1].c_str()); bool am = atoi(t[2].c_str()) != 0; int om = atoi(t[3].c_str()); const Geo& q = GEOS[om % 3];
       if (t[0] == "gd") { if (kind == 0) gd_t(Geodesic(q.a, q.f), q, 0, am, om); else if (kind == 1) gd_t(GeodesicExact(q.a, q.f), q, 1, am, om); else gd_t(Geodesic(q.a, q.f, true), q, 2, am, om); }
       else { if (kind == 0) gi_t(Geodesic(q.a, q.f), q, 0, om); else if (kind == 1) gi_t(GeodesicExact(q.a, q.f), q, 1, om); else gi_t(Geodesic(q.a, q.f, true), q, 2, om); }
-    } else if (t[0] == "rd" || t[0] == "ri" || t[0] == "rl") rhumb_ops(t[0], atoi(t[1].c_str()));
+    } else if (t[0] == "rd" || t[0] == "ri" || t[0] == "rl" || t[0] == "rdp" || t[0] == "rlp") rhumb_ops(t[0], atoi(t[1].c_str()));
     else if (t[0] == "uninit") {
       GeodesicLine l0; GeodesicLineExact l1; Out o = sentinels();
       double r0 = l0.GenPosition(true, 10.0, Geodesic::ALL, o.v[0], o.v[1], o.v[2], o.v[3], o.v[4], o.v[5], o.v[6], o.v[7]); bool pk; int w0 = written(o, pk);
